@@ -31,6 +31,10 @@ pub(crate) fn validate_variable_definitions(
             Default::default(),
         );
 
+        if let Some(default) = &variable.default_value {
+            super::value::validate_unique_input_fields(diagnostics, default);
+        }
+
         if let Some(schema) = &schema {
             let ty = &variable.ty;
             let type_definition = schema.types.get(ty.inner_named_type());
